@@ -67,10 +67,12 @@ func c19OnlyErr() error {
 func c19Nothing() { c19Calls++ }
 func c19Panics(a int) int {
 	c19Calls++
+	c19Rec(0, float64(a))
 	panic("boom")
 }
 func c19RuntimePanics(a int) int {
 	c19Calls++
+	c19Rec(0, float64(a))
 	var m map[string]int
 	m["x"] = a // assignment to entry in nil map
 	return a
